@@ -17,6 +17,7 @@ use std::sync::Arc;
 
 const NAME_POOL: &[&str] = &[
     "a", "B", "n1", "", " ", "  lead", "trail  ", "in ner", "<", ">", "&", "\"", "'", "&amp;", "&lt;x&gt;", "&#65;", "&unknown;",
+    "&quot;", "&apos;", "say &quot;hi&quot;", "&amp;quot;", "&amp;amp;", "&#x26;", "&gt;&lt;", "&;", "&#;",
     "]]>", "<!--", "-->", "<![CDATA[", "a<b>c", "x\"y'z", "O'Brien", "say \"hi\"", "x\" id=\"y", "é", "ß", "ñandú", "Ünïcödé",
     "日本語", "中文", "한국어", "😀", "👩‍👩‍👧", "e\u{301}", "a\u{308}\u{323}", "שלום", "مرحبا", "\u{a0}", "\u{2028}", "\u{2029}", "\u{200b}", "\u{feff}x",
     "\u{10ffff}", "\u{e000}", "=", "/>", "</node>", "<node id=\"z\"/>", "%s", "\\", "/", "?", "#", "1e5", "NaN", "inf", "-0",
@@ -62,6 +63,7 @@ fn weird_weight(rng: &mut Rng) -> f64 {
         0.0, -0.0, 5e-324, -5e-324, 2.2250738585072014e-308, 2.225073858507201e-308, f64::MAX, f64::MIN, 1e308, 1.7976931348623157e308,
         f64::INFINITY, f64::NEG_INFINITY, 0.1, 0.2, 0.30000000000000004, 1.0 / 3.0, 1e16, 1e-7, 123456789.12345679, 9007199254740993.0,
         1e21, 1e-5, 1.5, 2.0, 100.0, 4.35, 1e100, 1.2345678901234567e-300, 8.98846567431158e307, 1e22, 1e23,
+        5e19, 1e20, 18446744073709551615.0, 18446744073709551616.0, 9.9999999999999998e19, 9223372036854775807.0, 4294967296.0, 1e19, 99999999999999991611392.0,
     ];
     match rng.below(3) {
         0 => specials[rng.below(specials.len())],
@@ -101,7 +103,8 @@ pub fn run_c14(a: &Args) {
         }
         let mut rng = Rng::new(mix(a.seed ^ 0xC14, idx));
         let specs = kinds[(idx % 8) as usize];
-        let n = rng.range(0, 7);
+        let bulk = idx % 600 == 599;
+        let n = if bulk { 40 } else { rng.range(0, 7) };
         let mut used = std::collections::HashSet::new();
         let names: Vec<String> = (0..n).map(|_| unicode_name(&mut rng, &mut used)).collect();
         let wmode = rng.below(3); // 0 unweighted, 1 weighted, 2 mixed
@@ -111,7 +114,13 @@ pub fn run_c14(a: &Args) {
         }
         let mut edge_desc = vec![];
         if n > 0 {
-            for _ in 0..rng.range(0, 9) {
+            let m_edges = if bulk {
+                ctx::count("reach:more-than-1000-edges");
+                rng.range(1001, 1300)
+            } else {
+                rng.range(0, 9)
+            };
+            for _ in 0..m_edges {
                 let u = rng.below(n);
                 let v = if rng.chance(1, 6) { u } else { rng.below(n) };
                 let w = match wmode {
@@ -442,6 +451,10 @@ fn gen_document(rng: &mut Rng, hostile: bool) -> String {
         }
         if hostile && rng.chance(1, 12) {
             t.push_str("<graph id=\"G\">");
+        } else if rng.chance(1, 5) {
+            // GraphML parse hints, plausible and absurd
+            let hint = *rng.pick(&["3", "0", "4611686018427387904", "18446744073709551615", "99999999999999999999", "-1", "many", "1e9", "4294967296"]);
+            t.push_str(&format!("<graph id=\"G\" edgedefault=\"{}\" parse.nodes=\"{}\" parse.edges=\"{}\" parse.order=\"nodesfirst\" parse.nodeids=\"free\" parse.edgeids=\"free\" parse.maxindegree=\"{}\">", ed, hint, hint, hint));
         } else {
             t.push_str(&format!("<graph id=\"G\" edgedefault=\"{}\">", ed));
         }
@@ -469,7 +482,10 @@ fn gen_document(rng: &mut Rng, hostile: bool) -> String {
             }
             let u = names[rng.below(n) % names.len()];
             let v = names[rng.below(n + if hostile { 1 } else { 0 }) % names.len()];
-            let w = match rng.below(8) {
+            let w = match rng.below(if hostile { 11 } else { 8 }) {
+                8 => (*rng.pick(&["18446744073709551616", "99999999999999999999", "18446744073709551615", "9223372036854775808", "00000000000000000001", "123456789012345678901234567890"])).to_string(),
+                9 => (*rng.pick(&["1e400", "-1e400", "1e-400", "+5", ".5", "5.", "0x10", "1_000", "Infinity", "-inf", "+inf", "nan", "1e", "1e+", "--1", "1.5.2", "\u{661}\u{662}"])).to_string(),
+                10 => format!("{}", rng.next_u64()),
                 0 => "1.5".to_string(),
                 1 => "2".to_string(),
                 2 => "1e3".to_string(),
